@@ -167,16 +167,28 @@ def direct_expectations(prog, houses):
         for t in h.taskers:
             if isinstance(t, framing.Framer):
                 framers[t.name] = t
+    everyone = dict(framers)
+    for h in houses:      # clones are registered in the house's tasker registry only
+        for t in list(getattr(h, "names", {}).get("tasker", {}).values()):
+            if isinstance(t, framing.Framer):
+                everyone.setdefault(t.name, t)
+    jobs = []
     for line_index, ns, operands in prog["direct"]:
         info = prog["frinfo"][ns]
         fi = info["framer"]
-        if prog["moot"][fi]:
-            continue
         fsym = prog["framers"][fi]
-        fname, nname = names[fsym], names[ns]
-        framer = framers.get(fname)
-        if framer is None:
-            continue
+        if prog["moot"][fi]:
+            # every clone of the moot: same frame names, same command line numbers; its main frame / main framer are
+            # the frame holding the aux clause and that frame's framer
+            for t in everyone.values():
+                if getattr(t, "main", None) is not None and not getattr(t, "original", True) and names[ns] in t.frameNames:
+                    jobs.append((line_index, ns, operands, fi, fsym, t, True))
+        else:
+            t = framers.get(names[fsym])
+            if t is not None:
+                jobs.append((line_index, ns, operands, fi, fsym, t, False))
+    for line_index, ns, operands, fi, fsym, framer, is_clone in jobs:
+        fname, nname = framer.name, names[ns]
         frame = framer.frameNames.get(nname)
         if frame is None:
             continue
@@ -188,6 +200,7 @@ def direct_expectations(prog, houses):
                 act = a
         if act is None:
             continue
+        mainframe = framer.main if is_clone else None
         # inode prefix of the framer and of the frame chain (None when not of a plain kind)
         fin = prog["finodes"].get(fsym)
         if fin is None:
@@ -219,8 +232,20 @@ def direct_expectations(prog, houses):
             form, w = ref["form"], ref["w"]
             gname = names[prog["framers"][ref["g"]]]
             exp = None
+            if is_clone and form not in ("abs", "framer", "framerme", "framerinline", "frame", "frameme", "frameinline",
+                                         "framemeofframer", "framermain", "framermaininline", "framemain", "framemaininline",
+                                         "framemainofframer", "framemainofframermain"):
+                continue      # named / inode-relative forms inside clones are left to the renaming oracle
             if form == "abs":
                 exp = ref["abs"]
+            elif form in ("framermain", "framermaininline"):
+                exp = ".framer.%s.%s" % (mainframe.framer.name, w)
+            elif form in ("framemain", "framemaininline", "framemainofframer", "framemainofframermain"):
+                exp = ".framer.%s.frame.%s.%s" % (mainframe.framer.name, mainframe.name, w)
+            elif form == "framemeofframer":
+                exp = ".framer.%s.frame.%s.%s" % (fname, nname, w)
+            elif form == "framenamedofframer":
+                exp = ".framer.%s.frame.%s.%s" % (fname, names[ref["of"]], w)
             elif form in ("framer", "framerme", "framerinline"):
                 exp = ".framer.%s.%s" % (fname, w)
             elif form in ("framernamed", "framernamedinline"):
